@@ -308,11 +308,17 @@ theorem runTask_tinv {r : Realm} (hi : RealmInv r) (h : TimerInv r) (t : Task) (
 
 theorem stepOp_tinv {r : Realm} (hi : RealmInv r) (h : TimerInv r) (op : Op) : TimerInv (r.stepOp op) := by
   cases op with
-  | join k isLocal details roles cap => rw [stepOp_join]; exact h.quiet (Quiet.of_eq rfl rfl)
+  | join k isLocal details roles cap =>
+    rw [stepOp_join]
+    split
+    · exact h
+    · exact h.quiet (Quiet.of_eq rfl rfl)
   | msg k m => exact recvMsg_tinv hi h k m
   | buffer k => rw [stepOp_buffer]; exact h.quiet (Quiet.of_eq rfl rfl)
   | drop k =>
     rw [stepOp_drop]
+    split
+    · exact h
     split
     · exact h
     · exact h.quiet (Quiet.of_eq rfl rfl)
